@@ -15,5 +15,6 @@ CONSTANTS
   Backlog = 1
   WksCheck = FALSE
   SnlClean = FALSE
+  KeepDead = FALSE
 CONSTRAINT Done
 CHECK_DEADLOCK FALSE
